@@ -22,9 +22,9 @@ import common as C  # noqa: E402
 from floatcmp import f2b, b2f  # noqa: E402
 from parallel import driver_parallel  # noqa: E402
 
-GEN = ['BSF', 'BSR', 'BSP']
+GEN = ['BSF', 'BSR', 'BSP', 'Effects']   # Effects: tools/effects/extract.py summaries (C18's extractor), used by Props/C05p
 PROPS = ['FinVerif.Props.C05a', 'FinVerif.Props.C05b', 'FinVerif.Props.C05c', 'FinVerif.Props.C05d', 'FinVerif.Props.C05e', 'FinVerif.Props.C05f',
-         'FinVerif.Props.C05v']
+         'FinVerif.Props.C05v', 'FinVerif.Props.C05g', 'FinVerif.Props.C05h', 'FinVerif.Props.C05i', 'FinVerif.Props.C05j', 'FinVerif.Props.C05p']
 DEFECT_PROPS = {'FinVerif.Props.C05v': 'C05/bs-vanna-sign-scale'}   # theorems that STATE a known defect
 DRIVERS = ['FinVerif.Driver.C05']
 
@@ -263,7 +263,8 @@ def report_fail(ctx, mask, what, clause, cols, limit=3, finding=None):
 # ------------------------------------------------------------------------------------------- main
 def run(ctx):
     drivers_ok = C.lean_stage(ctx, GEN, PROPS, DRIVERS,
-                              extra_files=['FinVerif/Lemmas/C05.lean', 'FinVerif/Spec/C05.lean'])
+                              extra_files=['FinVerif/Lemmas/C05.lean', 'FinVerif/Spec/C05.lean',
+                                           'FinVerif/Lemmas/C05Strike.lean', 'FinVerif/Lemmas/C08.lean'])
     C.import_financepy()
     import financepy.models.black_scholes_analytic as A
     import financepy.models.black as B
@@ -585,6 +586,60 @@ def run(ctx):
     report_fail(ctx, ~(np.abs(bvals['black_value'] - exb) <= tolq), 'black_value != discounted expectation of the payoff',
                 'value=expectation:black', {**bcols, 'value': bvals['black_value'], 'expectation': exb, 'tol': tolq})
     ctx.count('O:black parity/bounds/bs-identity/expectation', 9 * n_b)
+
+
+    # ============================================================ O (growth round): the executable reading of Props/C05g-i
+    # Black-76 theta parity  theta_c - theta_p = r e^{-rt} (F - K)   (black_theta_put_call_parity)
+    tcb, tpb = blk('black_theta', Pbc), blk('black_theta', Pbp)
+    res = tcb - tpb - Pb['r'] * ab['dr'] * (Pb['s'] - Pb['k'])
+    ttol = 1e-9 * bsc['black_theta'] + 2 * JMP * np.abs(Pb['r']) * (ab['ss'] + ab['kk'])
+    report_fail(ctx, ~(np.abs(res) <= ttol), 'black_theta: call - put != r e^{-rt} (F - K)', 'theta-parity:black',
+                {**bcols, 'theta_call': tcb, 'theta_put': tpb, 'residual': res})
+    # Black-Scholes Greeks parity (bs_greeks_put_call_parity)
+    gsc = {'bs_delta': a['dq'], 'bs_theta': np.abs(P['q']) * a['ss'] + np.abs(P['r']) * a['kk'], 'bs_rho': a['t'] * a['kk']}
+    gref = {'bs_delta': a['dq'], 'bs_theta': P['q'] * a['ss'] - P['r'] * a['kk'], 'bs_rho': a['t'] * a['kk']}
+    for gn in ('bs_delta', 'bs_theta', 'bs_rho'):
+        gc, gp = call7(gn, Pc), call7(gn, Pp)
+        res = gc - gp - gref[gn]
+        report_fail(ctx, ~(np.abs(res) <= (1e-9 + 2 * JMP) * gsc[gn] + 1e-300), f'{gn}: call - put != parity value',
+                    f'greek-parity:{gn}', {**cols, 'call': gc, 'put': gp, 'expected': gref[gn], 'residual': res})
+    # at the money forward the time value is of first order in sigma sqrt(T) (bs_atm_time_value_lower): no fast path
+    Patm = {**Pc, 'k': P['s'] * np.exp((P['r'] - P['q']) * P['t'])}
+    aatm = aux(Patm)
+    catm = call7('bs_value', Patm)
+    lower = aatm['ss'] * aatm['vs'] * np.exp(-aatm['vs'] ** 2 / 8) / math.sqrt(2 * math.pi)
+    report_fail(ctx, ~(catm >= lower - 2.5 * E0 * aatm['ss'] - 1e-9 * aatm['ss']),
+                'bs_value at the money forward is below S e^{-qT} sigma sqrt(T) phi(d1)', 'atm-time-value-lower',
+                {**{c_n: Patm[c_n] for c_n in 'stkrqv'}, 'value': catm, 'lower_bound': lower})
+    # small volatility, inside the domain: the same strikes, sigma chosen so that sigma sqrt(T) = 1e-3 / 5e-4 / 2.7e-4,
+    # kept only where sigma >= 0.5% (short expiries); a "sigma sqrt(T) < threshold => intrinsic" fast path fails here
+    n_small = 0
+    for wv in (1e-3, 5e-4, 2.7e-4):
+        vv = wv / np.sqrt(P['t'])
+        idx = np.nonzero((vv >= 0.005) & (vv <= 3.0))[0]
+        if len(idx) == 0:
+            continue
+        Psm = sub({**Patm, 'v': vv}, idx)
+        asm = aux(Psm)
+        csm = call7('bs_value', Psm)
+        low = asm['ss'] * asm['vs'] * np.exp(-asm['vs'] ** 2 / 8) / math.sqrt(2 * math.pi)
+        up = asm['kk'] * asm['vs'] / math.sqrt(2 * math.pi)
+        # N(x) - N(-x) of the Hull polynomial near 0 is accurate to E1*x + jump (derived, see notes): tolerance
+        tl = (E1 * asm['vs'] + 2 * JMP + 1e-15) * asm['ss']
+        report_fail(ctx, ~((csm >= low - tl) & (csm <= up + tl)),
+                    'bs_value at the money with small sigma sqrt(T) is not within [S w phi(w/2), K e^{-rT} c w] of intrinsic (0)',
+                    'small-vol-time-value', {**{c_n: Psm[c_n] for c_n in 'stkrqv'}, 'value': csm, 'lower': low, 'upper': up})
+        n_small += len(idx)
+    # value vs the library's own bs_intrinsic (bs_value_vs_coded_intrinsic)
+    intr = np.array([float(A.bs_intrinsic(float(P['s'][i]), float(P['t'][i]), float(P['k'][i]), float(P['r'][i]),
+                                          float(P['q'][i]), int(P['ty'][i]))) for i in range(n_main)])
+    v_ = call7('bs_value', P)
+    up = intr + a['kk'] * a['vs'] / math.sqrt(2 * math.pi)
+    report_fail(ctx, ~((v_ >= intr - 2.5 * E0 * sc) & (v_ <= up + 2.5 * E0 * sc)),
+                'bs_value outside [bs_intrinsic, bs_intrinsic + K e^{-rT} c sigma sqrt(T)]', 'value-vs-intrinsic',
+                {**cols, 'ty': P['ty'], 'value': v_, 'bs_intrinsic': intr, 'upper': up})
+    ctx.count('O:growth theta/greek parity, atm lower bound, small vol, intrinsic', n_b + 3 * n_main + n_main + n_small + n_main,
+              sample={'atm_value': float(catm[0]), 'atm_lower': float(lower[0])})
 
     # ============================================================ shifted Black and Bachelier (class methods)
     n_s = 500 if quick else 4000
